@@ -16,12 +16,13 @@ ScnOK(sc) == /\ sc.op \in Ops
              /\ sc.auxterm \in (IF sc.op \in {"bound", "toggle"} THEN TermsOf(sc.aux, AuxTerms) ELSE {[k |-> "U", t |-> INF]})
              /\ sc.par \in ParamsOf(sc.op, sc.aux)
              /\ sc.dsp \in (IF Disposes THEN 0..MaxT ELSE {}) \cup {INF}
+             /\ sc.dmode \in {"all"} \cup (IF sc.dsp # INF /\ sc.op \in OuterOps THEN {"outer"} ELSE {})
 \* (the file is parsed every time Scns is evaluated: bind it once with LET)
 ASSUME LET all == Scns IN \A n \in 1..Len(all) : ScnOK(all[n])
 
 InitFrom == /\ LET all == Scns IN \E n \in 1..Len(all) : LET sc == all[n] IN
                  /\ op = sc.op /\ par = sc.par /\ src = sc.src /\ term = sc.term
-                 /\ aux = sc.aux /\ auxterm = sc.auxterm /\ dsp = sc.dsp
+                 /\ aux = sc.aux /\ auxterm = sc.auxterm /\ dsp = sc.dsp /\ dmode = sc.dmode
             /\ lazy \in (IF op = "count" THEN BOOLEAN ELSE {FALSE})
             /\ abandon \in (IF auxterm.k = "E" \/ (op \in {"when", "toggle"} /\ (par.fr # 0 \/ par.ck = "E")) THEN BOOLEAN ELSE {FALSE})
             /\ i = 1 /\ a = 1 /\ now = 0 /\ step = 0 /\ arr = <<>>
